@@ -285,9 +285,10 @@ def stream_init(chk, i, rng):
         mask = rng.random(L) < 0.6
         bad = True
     elif r < 0.4:
-        mask = np.zeros(d, dtype=bool)           # no used feature
+        mask = np.zeros(d, dtype=bool)           # no used feature: rejected
     else:
         mask = rng.random(d) < 0.6
+    empty = mask is not None and not bad and not np.any(mask)
     while mask is not None and not bad and (n_cuts + 1) ** int(np.sum(mask)) > 3200:
         n_cuts -= 1
     seed = int(rng.integers(0, 2 ** 31 - 1))
@@ -321,8 +322,10 @@ def stream_init(chk, i, rng):
             chk.fail("init:used-features", f"cut_points_list_ features {[f for f, _ in cpl]} / sizes do not match the mask {want}", replay, layer="L3")
         if est.leaf_scores_.shape != ((n_cuts + 1) ** len(want), K):
             chk.fail("init:leaf-count", f"leaf_scores_ has shape {est.leaf_scores_.shape}, expected {((n_cuts + 1) ** len(want), K)}", replay, layer="L3")
-    elif not bad:
-        chk.fail("init:spurious-error", "ValueError for a mask of the right length", replay, layer="L3")
+    elif not bad and not empty:
+        chk.fail("init:spurious-error", "ValueError for a mask of the right length that selects a feature", replay, layer="L3")
+    if err is None and (bad or empty):
+        chk.fail("init:bad-mask-accepted", "a mask of the wrong length or selecting no feature was accepted", replay, layer="L3")
     chk.dist["init:bad-length" if bad else ("init:none" if mask is None else f"init:used={int(np.sum(mask))}")] += 1
     chk.count(("init", d, replay["mask"] and tuple(replay["mask"]), n_cuts) if (mask is not None) else None)
 
@@ -493,11 +496,13 @@ def stream_active_malformed(chk, i, rng):
 
 
 def stream_nomask(chk, i, rng):
-    """No used feature: the model has no prediction (reduce of an empty sequence)."""
+    """An (artificially) empty cut_points_list_: the model has no prediction (reduce of an empty sequence)."""
     d = int(rng.integers(1, 4))
-    est = Douglas(n_clusters=2, n_cuts=1, feature_mask=np.zeros(d, dtype=bool), max_iter=1, gemini="mmd_ova", random_state=0)
+    est = Douglas(n_clusters=2, n_cuts=1, max_iter=1, gemini="mmd_ova", random_state=0)
     X = rng.normal(size=(5, d))
     est._init_params(np.random.RandomState(0), X)
+    est.cut_points_list_ = []
+    est.leaf_scores_ = rng.normal(size=(1, 2))
     mod = model_infer(chk, 0.1, 2, [], est.leaf_scores_, X)
     try:
         P = np.asarray(est._infer(X, retain=False))
@@ -512,9 +517,9 @@ def stream_nomask(chk, i, rng):
     chk.count(None)
 
 
-STREAMS = {"binning": (stream_binning, 500, 6000), "infer": (stream_infer, 420, 5000), "init": (stream_init, 150, 1500),
-           "cells": (stream_cells, 200, 3000), "active": (stream_active, 700, 10000),
-           "active_malformed": (stream_active_malformed, 80, 800), "nomask": (stream_nomask, 5, 20)}
+STREAMS = {"binning": (stream_binning, 900, 9000), "infer": (stream_infer, 800, 8000), "init": (stream_init, 250, 2500),
+           "cells": (stream_cells, 400, 4000), "active": (stream_active, 1500, 15000),
+           "active_malformed": (stream_active_malformed, 120, 1200), "nomask": (stream_nomask, 5, 20)}
 
 
 def main():
